@@ -56,6 +56,8 @@ SERVERS = [
     {"url": "https://ofx.alpha-bank.com/hosted/bank2/ofx", "org": "ALPHA", "fid": "1", "base": 3200},
     {"url": "https://ofx.alpha-bank.com:8443/ofx", "org": "ALPHA", "fid": "1", "base": 3500},
     {"url": "https://ofx.noid-one.com/ofx?inst=2", "org": None, "fid": None, "base": 3800},
+    # profiles last updated long ago: dated before the 19900101 a client sends when it holds nothing
+    {"url": "https://ofx.old-savings.example/ofx", "org": "OLDSAV", "fid": "7", "base": 1950},
 ]
 PLACEHOLDER_US = R.local_us(1990, 1, 1)
 STATS = None
@@ -133,7 +135,7 @@ class Env:
 # histories
 # ---------------------------------------------------------------------------
 class CacheMachine(RuleBasedStateMachine):
-    servers_allowed = tuple(range(7))
+    servers_allowed = tuple(range(8))
 
     def __init__(self):
         super().__init__()
@@ -164,7 +166,7 @@ class CacheMachine(RuleBasedStateMachine):
         if STATS is not None:
             STATS.fail(key, list(self.history), f"step {self.history[-1]}: {detail}")
 
-    @rule(si=st.sampled_from([0, 0, 0, 0, 0, 1, 2, 3, 4, 4, 5, 6]), who=st.sampled_from(["same", "same", "restart", "second", "other", "other", "override", "scan"]), behaviour=st.sampled_from(["newer", "newer", "same", "older", "uptodate", "uptodate", "errstatus", "garbage", "transport", "newer-signon-status", "truncated"]))
+    @rule(si=st.sampled_from([0, 0, 0, 0, 0, 1, 2, 3, 4, 4, 5, 6, 7, 7]), who=st.sampled_from(["same", "same", "restart", "second", "other", "other", "override", "scan"]), behaviour=st.sampled_from(["newer", "newer", "same", "older", "uptodate", "uptodate", "errstatus", "garbage", "transport", "newer-signon-status", "truncated"]))
     def request(self, si, who, behaviour):
         if who == "scan":
             return _scan_rule(self, si, {"same": "uptodate", "errstatus": "garbage", "transport": "garbage"}.get(behaviour, behaviour))
@@ -226,7 +228,7 @@ class CacheMachine(RuleBasedStateMachine):
         elif behaviour == "uptodate":
             self.plan = ("ok", F.profile_response({}, None, code=1))
         elif behaviour == "errstatus":
-            self.plan = ("ok", F.profile_response({}, None, code=2000))
+            self.plan = ("ok", F.profile_response({}, None, code=[2000, 2020, 15500, 2019, 13504][len(self.history) % 5]))
         elif behaviour == "garbage":
             self.plan = ("ok", b"<html><body>Service temporarily unavailable</body></html>")
         elif behaviour == "truncated":
@@ -383,7 +385,7 @@ def _scan_rule(self, si, behaviour):
 
 
 
-def replay_history(case, servers_allowed=tuple(range(7))):
+def replay_history(case, servers_allowed=tuple(range(8))):
     global STATS
     saved = STATS
     STATS = H.Stats()
@@ -649,7 +651,7 @@ def check_case(case):
         return replay_history(case)
     kind = case["kind"]
     if kind == "history":
-        return replay_history(case["steps"], case.get("servers", tuple(range(7))))
+        return replay_history(case["steps"], case.get("servers", tuple(range(8))))
     if kind == "crash":
         return crash_failures(crash_run(case["pre"], case["k"], case["variant"]))
     if kind == "schedule":
@@ -734,8 +736,8 @@ def _schedule_worker(scheds):
 def run(ctx):
     # cross-server finding open? then the history machine stays on servers with distinct ORG/FID (exclusion by construction)
     openk = H.open_keys(PID)
-    servers = (0, 2) if any(k.startswith("cross-server/") for k in openk) else tuple(range(7))
-    if len(servers) != 7:
+    servers = (0, 2) if any(k.startswith("cross-server/") for k in openk) else tuple(range(8))
+    if len(servers) != 8:
         ctx.exclude("history machine restricted to servers with distinct ORG/FID (open cross-server finding)")
     n = ctx.scale(12, 150)
     steps = ctx.scale(8, 12)
